@@ -1,4 +1,3 @@
-import Holpy.C13.Wire
-import Holpy.C14.Model
+import Holpy.C14.Wire
 /- Driver of the C14 model (the splice of `apply_tactic` is the C13 model's): same line protocol. -/
-def main : IO Unit := Holpy.lineLoop Holpy.C13.Wire.handle
+def main : IO Unit := Holpy.lineLoop Holpy.C14.Wire.handle
